@@ -117,6 +117,25 @@ def run_job(job):
             got = where.get(k, [])
             if got != [want]:
                 bad({"class": "placement", "side": "writer"}, "sample %d (n=%d,d=%d,fc=%d) stored in %s, exact placement %s" % (k, n, d, fc, got, want), k=k)
+        # a later writer session configured with another file cadence: refused - or, if the library takes it, every
+        # sample of both sessions is still found where the reader looks
+        k_late = None
+        try:
+            wri3 = drf.DigitalMetadataWriter(mdir, sc, fc * 2 + 1, n, d, "m")
+            k_late = ks[-1] + 2 * md.first_of_ts(fc * 4 + 4, n, d) + 5
+            wri3.write(k_late, {"v": np.uint64(k_late)})
+            part["outcomes"]["session_with_other_cadence:accepted"] += 1
+        except (ValueError, IOError):
+            part["outcomes"]["session_with_other_cadence:refused"] += 1
+            k_late = None
+        if k_late is not None:
+            r3 = drf.DigitalMetadataReader(mdir)
+            for k in ks[::5] + [k_late]:
+                if [int(x) for x in r3.read(k, k)] != [k]:
+                    bad({"class": "placement", "side": "reader_after_session_with_other_cadence"},
+                        "a writer session with file cadence %d on a channel recorded with %d was accepted; afterwards read(%d,%d) does not return the sample" % (fc * 2 + 1, fc, k, k), k=k)
+                    break
+            ks = ks + [k_late]
         # leftovers whose names merely end like a properties file (an operator's backup copies, describing
         # another configuration) do not describe the channel
         import shutil
